@@ -64,6 +64,12 @@ def main(tier, seed):
     note_program_stats(run, files)
     mism, stats = validate_programs(run, files, "C08", nproc=12, timeout=2400)
     report_mismatches(run, mism)
+    # the callee cannot see or disturb the caller's local variables: at the level of the interpreter's instructions (VmData.tla, every
+    # executed instruction validated with the contents of the value stack) no instruction changes a value below the frame of the
+    # function that executes it, except the assignment of a captured variable; other deviations from the data model are recorded only
+    model_check_vmdata(run, 2 if not thorough else 3)
+    instr_conformance(run, ["calls", "deep", "closures"], 12 if not thorough else 120, seed, "C08-data",
+                      lambda m: "below the frame" in str(m.get("why")), max_events=1500, values=True)
     run.assumptions += ["module tree root{a{b}, c}; function families, call sites, call names and import sets (<= 2 imports out of 17 incl. super chains, "
                         "malformed and too-deep ones) enumerated by TLC",
                         "a module import that climbs with `super` may be refused at compile time (the property only says what may compile)",
